@@ -293,3 +293,19 @@ class SEnum(object):
 
   def __init__(self, ref):
     self.ref = ref
+
+
+class WordArr(object):
+  """array.array('H', data): little-endian 16 bit words over a byte string"""
+  __slots__ = ("data",)
+
+  def __init__(self, data):
+    self.data = data
+
+
+class SymRange(object):
+  """range(0, stop) with a symbolic stop"""
+  __slots__ = ("stop",)
+
+  def __init__(self, stop):
+    self.stop = stop
